@@ -19,14 +19,14 @@ def place_markers(rng, p):
         n[0] += 1
         return n[0]
     for part in p["parts"]:
-        kinds = ["instantiate", "exec", "query", "sudo", "migrate", "reply"] if part["id"] == "c" else ["exec", "query", "sudo"]
+        kinds = ["instantiate", "exec", "query", "sudo", "migrate", "reply"]
         prefix = "" if part["id"] == "c" else part["trait"]
         part["msg_attrs"] = []
         for k in kinds:
             for _ in range(rng.choice([0, 1, 1, 2])):
                 m = mark()
                 part["msg_attrs"].append((k, f"verif_mark({m})"))
-                has_type = k != "reply" and (k in KINDS_ENUM or any(h["kind"] == k for h in part["handlers"]))
+                has_type = k != "reply" and (k in KINDS_ENUM or (part["id"] == "c" and any(h["kind"] == k for h in part["handlers"])))
                 exp[m] = ("type", prefix + MSG_OF[k]) if has_type else ("nowhere",)
         rng.shuffle(part["msg_attrs"])
         for h in part["handlers"]:
@@ -42,7 +42,8 @@ def place_markers(rng, p):
             for a in h["args"]:
                 if rng.random() < 0.5:
                     m = mark()
-                    a["attrs"] = [f"verif_mark({m})"]
+                    # list form, doc comment and bare-path form are all forwarded to the field
+                    a["attrs"] = [rng.choice([f"verif_mark({m})", f"doc = \"verif_mark({m})\"", f"verif_mark_{m}"])]
                     if h["kind"] in KINDS_ENUM:
                         exp[m] = ("field", prefix + MSG_OF[h["kind"]], T.variant_ident(h["name"]), a["name"])
                     else:
@@ -56,7 +57,7 @@ def find_markers(view):
 
     def scan(attrs, loc):
         for a in attrs:
-            for m in re.findall(r"verif_mark\s*\(\s*(\d+)\s*\)", a):
+            for m in re.findall(r"verif_mark(?:\s*\(\s*|_)(\d+)", a):
                 found.setdefault(int(m), []).append(loc)
     for it in view:
         if it["k"] == "enum":
@@ -71,7 +72,7 @@ def find_markers(view):
                 scan(f["attrs"], ("sfield", it["name"], f["name"]))
         else:
             txt = json.dumps(it)
-            for m in re.findall(r"verif_mark\s*\(\s*(\d+)\s*\)", txt):
+            for m in re.findall(r"verif_mark(?:\s*\(\s*|_)(\d+)", txt):
                 found.setdefault(int(m), []).append(("elsewhere", it["k"], it.get("name") or (it.get("sig") or {}).get("name")))
     return found
 
